@@ -110,7 +110,8 @@ def generate(seed: int, tier: str = "quick") -> Dict[str, Any]:
             op["rule"] = rng.choice(rules + [None])
             if k == "add":
                 op["eid"] = rng.choice(EXPLICIT_IDS) if rng.random() < p_explicit else None
-                op["fmt"] = rng.choice(["map", "map", "pairs", "labels", "rxnside", "pairs_str", "map_float"])
+                op["fmt"] = rng.choice(["map", "map", "pairs", "labels", "rxnside", "pairs_str", "map_float",
+                                        "gen_labels", "gen_pairs", "zip_pairs"])
             else:
                 op["style"] = rng.choice(["tight", "spaced", "star"])
                 op["suffix"] = rng.random() < 0.4
@@ -194,6 +195,12 @@ def _fmt_side(side: List[List[Any]], fmt: str) -> Any:
         return d
     if fmt == "pairs":
         return [(s, c) for s, c in side]
+    if fmt == "gen_labels":
+        return (s for s, c in side for _ in range(c))          # a one-shot iterator of labels (Iterable[str] is documented)
+    if fmt == "gen_pairs":
+        return iter([(s, c) for s, c in side])                  # a one-shot iterator of (label, count) pairs
+    if fmt == "zip_pairs":
+        return zip([s for s, c in side], [c for s, c in side])
     if fmt == "pairs_str":
         return [(s, str(c)) for s, c in side]      # counts are normalised with int(): "2" is 2
     if fmt == "map_float":
